@@ -4,7 +4,7 @@
 set -u
 PROP=$1; N=$2; SRC=$3
 DEST=/verif/seeded/$PROP-$N
-WT=$(mktemp -d /tmp/confirm_${PROP}_${N}_XXXX)
+WT=$(mktemp -d /var/tmp/confirm_${PROP}_${N}_XXXX)
 rmdir $WT
 git -C /repo worktree add -q --detach $WT HEAD || exit 2
 mkdir -p $DEST
